@@ -15,6 +15,7 @@
 #include "../common.h"
 
 #include <hgraph/lib/std/operators/higher_order.h>
+#include <hgraph/lib/std/operators/impl/higher_order_impl.h>   // mesh_ref
 #include <hgraph/lib/std/operators/impl/record_replay_memory_impl.h>
 #include <hgraph/lib/testing/record_replay.h>
 
@@ -923,7 +924,7 @@ namespace
             const std::string kind = l.pos.at(2);
             NodeSpec         &sp   = spec_of(id);
             std::vector<P>    in;
-            if (kind != "drec" && kind != "map" && kind != "reduce" && kind != "rrec")
+            if (kind != "drec" && kind != "map" && kind != "reduce" && kind != "rrec" && kind != "mesh")
             {
                 for (auto &r : sp.ins) { in.push_back(resolve(env, r)); }
             }
@@ -1015,6 +1016,21 @@ namespace
             else if (kind == "gset") { wire<VGSet>(w, sid, Str{l.gets("key", "k")}, in.at(0)); }
             else if (kind == "gprobe") { env.ports.emplace(id, wire<VGProbe>(w, sid, Str{l.gets("key", "k")}, in.at(0))); }
             else if (kind == "grec") { wire<stdlib::dense_record_impl>(w, in.at(0), Str{l.gets("key", "r")}); }
+            else if (kind == "meshref") { env.ports.emplace(id, stdlib::mesh_ref<TS<Int>>(w, in.at(0))); }
+            else if (kind == "dflt0")
+            {
+                P zero = wire<stdlib::const_, TS<Int>>(w, Int{0});
+                env.ports.emplace(id, wire<stdlib::default_>(w, in.at(0), zero).as<TS<Int>>());
+            }
+            else if (kind == "mesh")
+            {
+                // in=<values dict>,<links dict>  g=<slot>: one child per key; a child may read a sibling's result (meshref)
+                const int k  = static_cast<int>(l.geti("g", 0));
+                auto      dv = env.dports.at(std::stol(sp.ins.at(0)));
+                auto      dl = env.dports.at(std::stol(sp.ins.at(1)));
+                auto      m  = dispatch_slot<SubG2>(k, [&]<typename G>() { return Port<void>{wire<stdlib::mesh_>(w, fn<G>(), dv, dl)}; });
+                env.dports.emplace(id, m.as<DInt>());
+            }
             else if (kind == "sched") { wire<VSched>(w, sid, in.at(0)); }
             else if (kind == "lsrc") { env.ports.emplace(id, wire<LSrc>(w, sid, Int{l.geti("cnt", 2)})); }
             else if (kind == "lpass") { env.ports.emplace(id, wire<LPass>(w, sid, in.at(0))); }
